@@ -19,6 +19,7 @@ import (
 type MS struct {
 	Ref        string        `json:"ref,omitempty"`
 	Ty         string        `json:"ty,omitempty"`
+	Format     string        `json:"-"` // string formats (C05 only; the Lean semantics reads a formatted string as a string)
 	Nullable   bool          `json:"nullable,omitempty"`
 	ReadOnly   bool          `json:"readOnly,omitempty"`
 	HasDefault bool          `json:"hasDefault,omitempty"`
@@ -56,6 +57,9 @@ func (s *MS) Render() map[string]interface{} {
 	}
 	if s.Ty != "" {
 		m["type"] = s.Ty
+	}
+	if s.Format != "" {
+		m["format"] = s.Format
 	}
 	if s.Nullable {
 		m["x-nullable"] = true
@@ -129,6 +133,15 @@ func (s *MS) Render() map[string]interface{} {
 		m["allOf"] = l
 	}
 	return m
+}
+
+// values of the string formats in the canonical text strfmt writes back (so that a loss-free round trip is the identity)
+var formatValues = map[string][]string{
+	"duration":  {"3h0m0s", "1.5s", "250ms", "1m30s"},
+	"date":      {"2020-01-02", "1999-12-31"},
+	"date-time": {"2020-01-02T03:04:05.000Z", "1999-12-31T23:59:59.500Z"},
+	"uuid":      {"a8098c1a-f86e-11da-bd1a-00112444be1e", "6ba7b810-9dad-11d1-80b4-00c04fd430c8"},
+	"byte":      {"aGVsbG8=", "AAEC"},
 }
 
 type msGen struct {
@@ -267,6 +280,9 @@ func (g *msGen) instance(defs map[string]*MS, s *MS, depth int) interface{} {
 	case "string":
 		if len(s.Enum) > 0 {
 			return s.Enum[g.r.Intn(len(s.Enum))]
+		}
+		if pool, ok := formatValues[s.Format]; ok {
+			return g.r.Pick(pool)
 		}
 		n := 3
 		if s.MinLen != nil && *s.MinLen > n {
@@ -586,7 +602,28 @@ func modelsRun(run *ev.Run, which string) {
 		ticket := &MS{Ty: "object", Required: []string{"id", "createdBy", "archived", "title"}, Props: []MKV{
 			{K: "id", V: &MS{Ty: "integer", ReadOnly: true}}, {K: "createdBy", V: &MS{Ty: "string", ReadOnly: true}},
 			{K: "archived", V: &MS{Ty: "boolean", ReadOnly: true}}, {K: "title", V: &MS{Ty: "string"}}, {K: "note", V: &MS{Ty: "string"}}}}
-		for _, kv := range []MKV{{K: "Counted", V: counted}, {K: "Elem", V: elem}, {K: "Bag", V: bag}, {K: "Items", V: itemsDef}, {K: "Ticket", V: ticket}} {
+		// named numeric definitions whose two bounds differ in exclusivity (the generated code converts the named type before
+		// comparing), used directly, through $ref and as array items; the instance values 1.5 / 2 / 4.25 and 2 / 4 sit on the bounds
+		ratio := &MS{Ty: "number", Minimum: i64p(1500), ExMin: true, Maximum: i64p(4250)}
+		level := &MS{Ty: "integer", Minimum: i64p(2000), Maximum: i64p(4000), ExMax: true}
+		gauge := &MS{Ty: "object", Required: []string{"gain"}, Props: []MKV{{K: "gain", V: &MS{Ref: "Ratio"}}, {K: "level", V: &MS{Ref: "Level"}},
+			{K: "gains", V: &MS{Ty: "array", Items: &MS{Ref: "Ratio"}}}}}
+		fixed := []MKV{{K: "Counted", V: counted}, {K: "Elem", V: elem}, {K: "Bag", V: bag}, {K: "Items", V: itemsDef}, {K: "Ticket", V: ticket},
+			{K: "Ratio", V: ratio}, {K: "Level", V: level}, {K: "Gauge", V: gauge}}
+		if which == "C05" {
+			// named string formats (aliases of the strfmt types) used directly, through $ref, as array items and as map values;
+			// C02 leaves them out: its Lean semantics does not read formats
+			fixed = append(fixed,
+				MKV{K: "Lapse", V: &MS{Ty: "string", Format: "duration"}}, MKV{K: "Day", V: &MS{Ty: "string", Format: "date"}},
+				MKV{K: "Stamp", V: &MS{Ty: "string", Format: "date-time"}}, MKV{K: "Ident", V: &MS{Ty: "string", Format: "uuid"}},
+				MKV{K: "Blob", V: &MS{Ty: "string", Format: "byte"}},
+				MKV{K: "Task", V: &MS{Ty: "object", Required: []string{"timeout", "owner"}, Props: []MKV{
+					{K: "timeout", V: &MS{Ref: "Lapse"}}, {K: "due", V: &MS{Ref: "Day"}}, {K: "at", V: &MS{Ref: "Stamp"}}, {K: "owner", V: &MS{Ref: "Ident"}},
+					{K: "payload", V: &MS{Ref: "Blob"}}, {K: "grace", V: &MS{Ty: "string", Format: "duration"}}, {K: "born", V: &MS{Ty: "string", Format: "date"}},
+					{K: "lapses", V: &MS{Ty: "array", Items: &MS{Ref: "Lapse"}}}, {K: "days", V: &MS{Ty: "array", Items: &MS{Ref: "Day"}}}}}},
+				MKV{K: "Budgets", V: &MS{Ty: "object", Addl: &MS{Ref: "Lapse"}}})
+		}
+		for _, kv := range fixed {
 			defs = append(defs, kv)
 			dm[kv.K] = kv.V
 			g.defs = append(g.defs, kv.K)
@@ -692,6 +729,13 @@ func modelsRun(run *ev.Run, which string) {
 					run.Sample(map[string]interface{}{"definition": def, "mutation": what, "instance": json.RawMessage(doc), "valid": sc.Valid, "generated_accepts": accepted})
 				}
 			case "C05":
+				if what == "valid-by-construction" && sc.Valid && !resp.Decoded {
+					// a document that is valid by construction must at least decode: a failing json.Unmarshal loses everything
+					st["VALID-DOES-NOT-DECODE"]++
+					run.Case(def + "|" + string(doc))
+					run.Deviation("valid-instance-does-not-decode", "json.Unmarshal of a valid document into the generated model fails: "+firstLine(resp.DecodeErr), replay)
+					continue
+				}
 				if !sc.Valid || !accepted || resp.Out == nil {
 					st["not-a-valid-instance"]++
 					continue
@@ -710,6 +754,16 @@ func modelsRun(run *ev.Run, which string) {
 					continue
 				}
 				if !tc.Tolerated {
+					// one cause is classified apart: strfmt.Date / strfmt.DateTime members are structs, `omitempty` never omits them,
+					// so an ABSENT optional date comes back as the year-one date
+					if stripped, n := stripZeroDates(inst, resp.Out); n > 0 {
+						if tc2, err := callSchema(m, "schema.tolerated", defs, &MS{Ref: def}, doc, stripped); err == nil && tc2.R == "ok" && tc2.Tolerated {
+							st["NOT-TOLERATED:zero-date-for-absent-member"]++
+							run.Deviation("roundtrip-adds:zero-date-for-absent-optional-member",
+								"an optional date / date-time member that is absent from the document is written back as the year-one date (0001-01-01)", replay)
+							continue
+						}
+					}
 					st["NOT-TOLERATED"]++
 					run.Deviation("roundtrip-loses-or-adds:"+mutClass(what), "decoding then encoding a valid instance changes it beyond the documented differences", replay)
 				} else if tc.Equal {
@@ -753,6 +807,56 @@ func (g *msGen) instanceOf(dm map[string]*MS, def string) interface{} {
 		return out
 	}
 	return g.instance(dm, s, 0)
+}
+
+// stripZeroDates removes from the re-encoded document every object member that holds the zero date / date-time and is
+// absent from the input at the same place; it returns the stripped document and the number of members removed.
+func stripZeroDates(in interface{}, out json.RawMessage) (json.RawMessage, int) {
+	var o interface{}
+	if json.Unmarshal(out, &o) != nil {
+		return out, 0
+	}
+	n := 0
+	var walk func(i, o interface{}) interface{}
+	walk = func(i, o interface{}) interface{} {
+		switch ov := o.(type) {
+		case map[string]interface{}:
+			im, _ := i.(map[string]interface{})
+			for k, v := range ov {
+				if sv, ok := v.(string); ok && (sv == "0001-01-01" || sv == "0001-01-01T00:00:00.000Z") {
+					if _, have := im[k]; !have {
+						delete(ov, k)
+						n++
+						continue
+					}
+				}
+				var iv interface{}
+				if im != nil {
+					iv = im[k]
+				}
+				ov[k] = walk(iv, v)
+			}
+			return ov
+		case []interface{}:
+			il, _ := i.([]interface{})
+			for x := range ov {
+				var iv interface{}
+				if x < len(il) {
+					iv = il[x]
+				}
+				ov[x] = walk(iv, ov[x])
+			}
+			return ov
+		}
+		return o
+	}
+	// the input instance as generic JSON
+	ib, _ := json.Marshal(in)
+	var iv interface{}
+	_ = json.Unmarshal(ib, &iv)
+	o = walk(iv, o)
+	b, _ := json.Marshal(o)
+	return b, n
 }
 
 func mutClass(what string) string {
